@@ -242,6 +242,10 @@ func startGen(c *core.Ctx) *genRun {
 				unk[m+": "+t] = rf.where(pos)
 				opaque = true
 			}
+			if mf.InvalidAt.IsValid() {
+				unk[m+": an expression whose type does not check (the emitted file has type errors, reported by C12)"] = rf.where(mf.InvalidAt)
+				opaque = true
+			}
 			for _, n := range mf.Size {
 				if n.Unknown != "" && n.Unknown != "$return" {
 					unk[m+": "+n.Unknown] = rf.where(n.Pos)
